@@ -789,9 +789,16 @@ func ruleTrieCopyShares(c *Ctx) {
 			}
 			return true
 		})
-		for o, at := range copies {
+		// keyed by the order of the copies in the function, not by the name of the local (a rename is not a change)
+		var objs []types.Object
+		for o := range copies {
+			objs = append(objs, o)
+		}
+		sort.Slice(objs, func(i, j int) bool { return copies[objs[i]].Pos() < copies[objs[j]].Pos() })
+		for oi, o := range objs {
+			at := copies[o]
 			ncopy++
-			key := "trie-copy-shares." + FuncKey(fd.Obj) + "." + o.Name()
+			key := fmt.Sprintf("trie-copy-shares.%s.copy#%d", FuncKey(fd.Obj), oi+1)
 			var bad *ast.CallExpr
 			ast.Inspect(fd.Decl.Body, func(n ast.Node) bool {
 				call, ok := n.(*ast.CallExpr)
@@ -2501,6 +2508,34 @@ func proposalShortcutLooksAtWitness(c *Ctx) {
 		}
 		found = true
 		looks := mentionsScripts(is.Cond, info)
+		// a condition that is a local bound to one expression is that expression
+		var condExprs []ast.Node
+		condExprs = append(condExprs, is.Cond)
+		ast.Inspect(is.Cond, func(y ast.Node) bool {
+			if id, ok := y.(*ast.Ident); ok {
+				if v, ok := info.ObjectOf(id).(*types.Var); ok && !v.IsField() && len(f.defs[v]) == 1 {
+					for _, r := range f.defs[v][0].rhs {
+						condExprs = append(condExprs, r)
+						if mentionsScripts(r, info) {
+							looks = true
+						}
+					}
+				}
+			}
+			return true
+		})
+		for _, ce := range condExprs[1:] {
+			ast.Inspect(ce, func(y ast.Node) bool {
+				if call, ok := y.(*ast.CallExpr); ok {
+					if fn := calleeFunc(info, call); fn != nil {
+						if d := c.P.DeclOf(fn); d != nil && d.Decl.Body != nil && mentionsScripts(d.Decl.Body, d.Pkg.TypesInfo) {
+							looks = true
+						}
+					}
+				}
+				return true
+			})
+		}
 		ast.Inspect(is.Cond, func(y ast.Node) bool {
 			if ce, ok := y.(*ast.CallExpr); ok {
 				if fn := calleeFunc(info, ce); fn != nil {
@@ -9563,23 +9598,71 @@ func ruleWitnessRecheckClasses(c *Ctx) {
 		}
 		return false, false
 	}
-	// the loop over t.Scripts whose body assigns true to a local that later gates verifyTxWitnesses
+	// the assignment of true to the flag inside the loop over the witnesses, and the condition under which it is
+	// reached: the enclosing ifs, and the negated conditions of the `if … { continue }` statements before it in its block
 	var cond ast.Expr
-	ast.Inspect(fd.Decl.Body, func(x ast.Node) bool {
-		is, ok := x.(*ast.IfStmt)
-		if !ok || cond != nil {
+	var stack []ast.Node
+	conj := func(a, b ast.Expr) ast.Expr {
+		if a == nil {
+			return b
+		}
+		return &ast.BinaryExpr{X: a, Op: token.LAND, Y: b}
+	}
+	leaves := func(b *ast.BlockStmt) bool {
+		if len(b.List) == 0 {
+			return false
+		}
+		switch y := b.List[len(b.List)-1].(type) {
+		case *ast.BranchStmt:
+			return y.Tok == token.CONTINUE
+		case *ast.ReturnStmt:
 			return true
 		}
-		sets := false
-		for _, st := range is.Body.List {
-			if as, ok := st.(*ast.AssignStmt); ok && len(as.Rhs) == 1 {
-				if v, isC := boolConst(info, as.Rhs[0]); isC && v {
-					sets = true
+		return false
+	}
+	ast.Inspect(fd.Decl.Body, func(x ast.Node) bool {
+		if x == nil {
+			stack = stack[:len(stack)-1]
+			return true
+		}
+		stack = append(stack, x)
+		as, ok := x.(*ast.AssignStmt)
+		if !ok || cond != nil || len(as.Rhs) != 1 || len(as.Lhs) != 1 {
+			return true
+		}
+		if v, isC := boolConst(info, as.Rhs[0]); !isC || !v {
+			return true
+		}
+		inLoop := false
+		var pc ast.Expr
+		for i := len(stack) - 2; i >= 0; i-- {
+			switch y := stack[i].(type) {
+			case *ast.RangeStmt:
+				if strings.Contains(types.ExprString(y.X), "Scripts") {
+					inLoop = true
+				}
+			case *ast.IfStmt:
+				if i+1 < len(stack) && stack[i+1] == ast.Node(y.Body) {
+					pc = conj(pc, y.Cond)
+				} else if i+1 < len(stack) && y.Else != nil && stack[i+1] == ast.Node(y.Else) {
+					pc = conj(pc, &ast.UnaryExpr{Op: token.NOT, X: y.Cond})
+				}
+			case *ast.BlockStmt:
+				for _, st := range y.List {
+					if i+1 < len(stack) && ast.Node(st) == stack[i+1] {
+						break
+					}
+					if is, ok := st.(*ast.IfStmt); ok && is.Else == nil && leaves(is.Body) {
+						pc = conj(pc, &ast.UnaryExpr{Op: token.NOT, X: is.Cond})
+					}
 				}
 			}
+			if inLoop {
+				break
+			}
 		}
-		if sets && len(f.DirectMentions(is.Cond)) >= 0 && strings.Contains(types.ExprString(is.Cond), "VerificationScript") {
-			cond = is.Cond
+		if inLoop && pc != nil && strings.Contains(types.ExprString(pc), "VerificationScript") {
+			cond = pc
 		}
 		return true
 	})
@@ -9887,6 +9970,7 @@ func ruleMagnitudeBound(c *Ctx) {
 			continue
 		}
 		k := 0
+		mf := c.P.NewFuncCFG(fd)
 		ast.Inspect(fd.Decl.Body, func(x ast.Node) bool {
 			call, ok := x.(*ast.CallExpr)
 			if !ok {
@@ -9897,14 +9981,29 @@ func ruleMagnitudeBound(c *Ctx) {
 				return true
 			}
 			mentions := false
-			ast.Inspect(call.Args[0], func(y ast.Node) bool {
-				if id, ok := y.(*ast.Ident); ok && id.Name == "MaxAllowedInteger" {
-					if _, ok := info.ObjectOf(id).(*types.Const); ok {
-						mentions = true
+			var look func(e ast.Node, depth int)
+			look = func(e ast.Node, depth int) {
+				ast.Inspect(e, func(y ast.Node) bool {
+					id, ok := y.(*ast.Ident)
+					if !ok {
+						return true
 					}
-				}
-				return true
-			})
+					if id.Name == "MaxAllowedInteger" {
+						if _, ok := info.ObjectOf(id).(*types.Const); ok {
+							mentions = true
+						}
+					}
+					if v, ok := info.ObjectOf(id).(*types.Var); ok && depth < 2 && !v.IsField() {
+						for _, d := range mf.defs[v] {
+							for _, r := range d.rhs {
+								look(r, depth+1)
+							}
+						}
+					}
+					return true
+				})
+			}
+			look(call.Args[0], 0)
 			if !mentions {
 				return true
 			}
@@ -10207,6 +10306,14 @@ func ruleGCAtomic(c *Ctx) {
 		inner, ok := ast.Unparen(se.X).(*ast.SelectorExpr)
 		return ok && inner.Sel.Name == "mut"
 	}
+	// a deferred Unlock releases at the exit, wherever the statement stands
+	deferred := map[*ast.CallExpr]bool{}
+	ast.Inspect(fd.Decl.Body, func(x ast.Node) bool {
+		if ds, ok := x.(*ast.DeferStmt); ok {
+			deferred[ds.Call] = true
+		}
+		return true
+	})
 	var walk func(n ast.Node, inLit bool)
 	walk = func(n ast.Node, inLit bool) {
 		ast.Inspect(n, func(x ast.Node) bool {
@@ -10225,7 +10332,7 @@ func ruleGCAtomic(c *Ctx) {
 						lockPos = y.Pos()
 					}
 				case isMut(y, "Unlock"):
-					if !inLit {
+					if !inLit && !deferred[y] {
 						unlockPos = y.Pos()
 					}
 				default:
